@@ -1722,6 +1722,12 @@ void Interpreter::assign_array_element(const std::string &name, int64_t index,
             Variable *target_array = meta->array_var;
             TypeInfo elem_type = meta->element_type;
 
+            // 指し先が const 配列の場合は、ポインタ経由でも変更不可
+            if (target_array->is_const && target_array->is_assigned) {
+                throw std::runtime_error(
+                    "Cannot modify const variable through pointer");
+            }
+
             // 型に応じた書き込み
             if (elem_type == TYPE_FLOAT) {
                 float f_val;
@@ -1795,6 +1801,12 @@ void Interpreter::assign_array_element(const std::string &name, int64_t index,
             if (!target_array || !target_array->is_array) {
                 throw std::runtime_error(
                     "Pointer does not point to an array in assignment");
+            }
+
+            // 指し先が const 配列の場合は、ポインタ経由でも変更不可
+            if (target_array->is_const && target_array->is_assigned) {
+                throw std::runtime_error(
+                    "Cannot modify const variable through pointer");
             }
 
             TypeInfo base_type = (target_array->type >= TYPE_ARRAY_BASE)
@@ -1922,6 +1934,12 @@ void Interpreter::assign_array_element_float(const std::string &name,
             Variable *target_array = meta->array_var;
             TypeInfo elem_type = meta->element_type;
 
+            // 指し先が const 配列の場合は、ポインタ経由でも変更不可
+            if (target_array->is_const && target_array->is_assigned) {
+                throw std::runtime_error(
+                    "Cannot modify const variable through pointer");
+            }
+
             // 型に応じた書き込み
             if (elem_type == TYPE_FLOAT) {
                 if (!target_array->array_float_values.empty()) {
@@ -1986,6 +2004,12 @@ void Interpreter::assign_array_element_float(const std::string &name,
             if (!target_array || !target_array->is_array) {
                 throw std::runtime_error(
                     "Pointer does not point to an array in assignment");
+            }
+
+            // 指し先が const 配列の場合は、ポインタ経由でも変更不可
+            if (target_array->is_const && target_array->is_assigned) {
+                throw std::runtime_error(
+                    "Cannot modify const variable through pointer");
             }
 
             TypeInfo base_type = (target_array->type >= TYPE_ARRAY_BASE)
